@@ -250,6 +250,17 @@ class Gen:
                     return [A("filter"), cs(r.choice(STR_POOL)), self.pick(["safe", "safe", "escape"])]
                 return cs(r.choice(STR_POOL))
             return n(self.pick(["s", "u", "m", "s"]))
+        if r.random() < 0.12 * self.consts:
+            # a constant subexpression whose value depends on the escaping mode
+            meta = self.pick(["<b>", "a&b", "it's", 'say "q"', "&lt;"])
+            safe = [A("filter"), cs(self.pick(["<i>", "x", "<b>"])), self.pick(["safe", "escape"])]
+            return self.pick([
+                [A("cat"), safe, cs(meta)],
+                [A("cat"), cs(meta), safe, c(r.randrange(0, 9))],
+                [A("filter"), [A("list"), cs(meta), safe], "join"] + ([cs(self.pick(["<", ", "]))] if r.random() < 0.6 else []),
+                [A("filter"), safe, "replace", cs("x"), cs(meta)],
+                [A("bin"), "+", safe, cs(meta)],
+            ])
         k = r.random()
         if k < 0.22:
             return [A("cat")] + [self.pick([self.str, self.str, self.int, self.any])(d - 1) for _ in range(r.randrange(2, 4))]
@@ -297,7 +308,7 @@ class Gen:
             return [A("not"), self.any(d - 1)]
         if k < 0.9:
             t = self.pick(["defined", "undefined", "none", "odd", "even", "string", "number", "integer", "boolean", "true", "false",
-                           "mapping", "sequence", "iterable", "callable", "escaped"])
+                           "mapping", "sequence", "iterable", "callable", "escaped", "upper", "lower", "string"])
             arg = self.int(d - 1) if t in ("odd", "even") else self.any(d - 1)
             return [A("test"), arg, t]
         t = self.pick(["divisibleby", "eq", "ne", "lt", "le", "gt", "ge", "in", "equalto", "greaterthan", "lessthan"])
@@ -308,6 +319,11 @@ class Gen:
     def misc(self, d):
         r = self.rng
         k = r.random()
+        if k < 0.05:
+            # a filter and the test of the same name side by side (they are different functions)
+            nm = self.pick(["upper", "lower", "string"])
+            v = self.pick([n("s"), n("u"), cs("Ab"), n("i")])
+            return [A("tuple"), [A("filter"), v, nm], [A("test"), self.pick([n("s"), cs("AB"), cs("ab"), n("u")]), nm]]
         if k < 0.2:
             return self.lookup(d)
         if k < 0.35:
@@ -470,12 +486,16 @@ class Variant:
     """one environment configuration = one compile-time configuration of the model"""
 
     def __init__(self, jinja2, autoescape=False, optimized=True, sandboxed=False, is_async=False, ic_bin=(), ic_un=(),
-                 hook="default", volatile=None):
+                 hook="default", volatile=None, env_autoescape=None):
+        """`autoescape` is the mode the expression is compiled under; when `env_autoescape` is given and differs, that
+        mode comes from a static `{% autoescape true|false %}` block inside an environment configured the other way.
+        `volatile` (a bool) wraps the expression in `{% autoescape vflag %}` decided at run time instead."""
         self.jinja2 = jinja2
         self.autoescape, self.optimized, self.sandboxed, self.is_async = autoescape, optimized, sandboxed, is_async
         self.ic_bin, self.ic_un, self.hook, self.volatile = tuple(ic_bin), tuple(ic_un), hook, volatile
+        self.env_autoescape = autoescape if env_autoescape is None else env_autoescape
         self.log = []
-        kw = dict(autoescape=autoescape, optimized=optimized, enable_async=is_async)
+        kw = dict(autoescape=self.env_autoescape, optimized=optimized, enable_async=is_async)
         if sandboxed:
             from jinja2.sandbox import SandboxedEnvironment
 
@@ -503,7 +523,8 @@ class Variant:
             self.env = jinja2.Environment(**kw)
 
     def label(self):
-        return (f"ae={int(self.autoescape)} opt={int(self.optimized)} sbx={int(self.sandboxed)} async={int(self.is_async)}"
+        return (f"ae={int(self.autoescape)}{'' if self.env_autoescape == self.autoescape else '(static block, env ' + str(int(self.env_autoescape)) + ')'}"
+                f" opt={int(self.optimized)} sbx={int(self.sandboxed)} async={int(self.is_async)}"
                 f" ic={''.join(self.ic_bin)}|{''.join(self.ic_un)} hook={self.hook} volatile={self.volatile}")
 
     def cfg_sx(self):
@@ -512,10 +533,15 @@ class Variant:
     def runtime_ae(self):
         return self.autoescape if self.volatile is None else self.volatile
 
+    def wrap(self, body):
+        if self.volatile is not None:
+            return "{% autoescape vflag %}" + body + "{% endautoescape %}"
+        if self.env_autoescape != self.autoescape:
+            return "{% autoescape " + ("true" if self.autoescape else "false") + " %}" + body + "{% endautoescape %}"
+        return body
+
     def template_src(self, src):
-        if self.volatile is None:
-            return "{{ " + src + " }}"
-        return "{% autoescape vflag %}{{ " + src + " }}{% endautoescape %}"
+        return self.wrap("{{ " + src + " }}")
 
     def render(self, src, data):
         """returns ('ok', text) | ('err', class name), and the hook log"""
